@@ -25,23 +25,42 @@ point-source panners with the models of C13 (zone masks, channel lock, `scaleAzE
 `_speaker_tree`), C19 (conversion) and C05 (panner over its regenerated table), imported unchanged:
 `renderConcrete_cart_power(_layouts)` — Cartesian point objects end to end with no handler or panner hypothesis;
 `renderConcrete_polar_point_partial(_layouts)` — polar point objects (zero extent, distance ≥ 1) on the nine non-stereo
-layouts, remaining hypotheses: the C05 panner returns a result, and that result is not the all-zero vector.
+layouts, remaining hypothesis: the C05 panner returns a result (round 7: that the result is not the zero vector is proved).
 Supporting: `treeWF_of_TreeS`, `allo_unit_power_distinct`, `pspHandle_contract`, `polarPointPan_contract`,
 `quadRoot_range`, `tables_env_ok`, `tables_polar_ok`.  Still parameters: the extent weight functions of the polar extent
 panner, `_calc_f/_calc_w/_calc_g_point_separated` of `allo_extent`, `np.roots` (closed form assumed, see the model header).
+
+Round 7: (1) the hypothesis "the C05 panner's result is not the all-zero vector" is gone: `pspHandle_hasPos` (every Triplet
+and VirtualNgon fan triangle of the regenerated C05 table is invertible with coordinates in [-2, 2] — table obligation
+`pspNzOk`, kernel-decided in `tables_polar_ok` — hence an accepted direction longer than 1/2 has a strictly positive gain) and
+`polarPoint_far` (the point-only regime of `PolarExtentHandler.handle` forces distance > 1/2).  The former statement quantified
+that hypothesis over all of ℝ³ including the origin, where it is false, and was vacuous.  (2) The panner contracts of
+`renderFull_power`, `renderFull_polar`, `polarHandle_contract` are required only at `visitedPositions` / for clamped extents in
+[5, 360].  (3) `render_nonneg`, `render_lfe_zero`, `render_muted_zero` carry `0 ≤ diffuse ≤ 1` (the `_real` forms without it
+hold over ℝ only because `√(negative) = 0`; numpy gives NaN and the ADM element classes do not reject such a value).
+(4) 0+2+0 on the concrete stereo table: `renderConcrete_polar_point_stereo_bounds_partial(_layouts)`,
+`renderConcrete_cart_stereo_bounds`.  (5) Partial totality, which makes the hypotheses `renderConcrete… = some r`
+satisfiable on the tables: `renderConcreteCart_plain_total_layouts`, `renderConcretePolarPoint_front_total_layouts`
+(`polarEdges_front`, `pspHandle_some_at_vertex`), with `example`s instantiating ALL hypotheses of the headline theorems.
+(6) Pipeline glue facts in Proofs/C01Glue.lean (incl. `diverge_polar_norm`: polar divergence keeps the distance).
+(7) C05 totality on the nominal tables (`Earverif.PointSource.pspHandle_total_layouts`, Props/C05.lean) is plugged in:
+`renderConcrete_polar_point_layouts` and `renderConcrete_polar_point_stereo_bounds_layouts` have NO hypothesis about the
+panner — if the position pipeline, the channel lock and the zone mask do not fail and the locked position is in the point-only
+class (`InPointClass`; contains every distance ≥ 1), `renderConcretePolarPoint` returns gains and they satisfy the invariant.
+The `_partial` forms remain for arbitrary tables that pass the decidable checks.
 
 What is NOT proved — the full property
   C01_full: ∀ ObjectTypeMetadata within the ADM value ranges, ∀ supported layouts (nominal or admissible real
             positions), `GainCalc(layout).render(meta)` is finite, non-negative, zero on LFE, and has power
             (gain × object gain)² (0 if muted; within [½,1]× on 0+2+0)
-needs, beyond `C01_partial`: (a) the point-source panner never returns "no result" and returns a non-negative
-unit-power vector (C05's subject; for 0+2+0 power in [½,1]); (b) the spread weights handed to
-`SpreadingPanner.panning_values_for_weight` are not all zero, so that the vector before normalisation is
-non-zero; (c) `allo_extent.get_gains`' vector before the last `safe_norm` is longer than 1e-16;
-(d) the zone downmix groups are duplicate-free and cover all channels (true of the tables the code builds;
-checked harness-side on every run, as is `TreeWF` of the allocentric grids the code builds);
-(e) finiteness / absence of NaN and rounding under float
-arithmetic.  (a)-(c), (e) are only searched on the real code (harness/c01.py).
+needs, beyond what is proved: (a) the point-source panner on real (non-nominal) loudspeaker positions (totality and
+non-degeneracy are table obligations, decided for the ten nominal tables only); (b) the spread weights handed to `SpreadingPanner.panning_values_for_weight` are not all zero, so
+that the vector before normalisation is non-zero; (c) `allo_extent.get_gains`' vector before the last `safe_norm` is longer
+than 1e-16; (d) polar blocks with distance < 1 or an extent (they use (b)); (e) the values of `polarEdges`,
+`screenScaleHandle`, `edgeLockHandle` with an active screen (only their inactive cases / shapes carry theorems, and
+`diverge_polar_norm`: Proofs/C01Glue.lean) — irrelevant for the invariant, which holds for whatever
+positions they produce, but relevant for which class a block falls in; (f) finiteness / absence of NaN and rounding under
+float arithmetic.  (a)-(d), (f) are only searched on the real code (harness/c01.py).
 -/
 import Earverif.Proofs.C01Real
 import Earverif.Proofs.C01Sub
@@ -51,6 +70,11 @@ import Earverif.Proofs.C01Ext
 import Earverif.Proofs.C01Pipe
 import Earverif.Proofs.C01Concrete
 import Earverif.Proofs.C01Psp
+import Earverif.Proofs.C01PspNz
+import Earverif.Proofs.C01Far
+import Earverif.Proofs.C01Stereo
+import Earverif.Proofs.C01Glue
+import Earverif.Proofs.C01Total
 import Earverif.Gen.C01_Tables
 import Earverif.Gen.C05_Tables
 
@@ -181,9 +205,11 @@ theorem render_power_eq (n : Nat) (path : ZonePath ℝ) (d : List ℝ) (g : List
     cases path <;> simp only [shapesOk, Bool.and_eq_true, beq_iff_eq] at hs <;> exact hs.1.2
   rw [sumSq_scatter isLfe _ (by simp [hpl.1, hcnt]), sumSq_map_mul, hpl.2]; ring
 
-/-- **Non-negativity.**  Every direct and diffuse gain is ≥ 0 (block and object gain ≥ 0; no other hypothesis:
-    over ℝ the panned gains come out of a square root). -/
-theorem render_nonneg (n : Nat) (path : ZonePath ℝ) (d : List ℝ) (g : List (List ℝ)) (bg og : ℝ) (mute : Bool)
+/-- Non-negativity over ℝ for ANY `diffuse` (no H3): over ℝ `√(negative) = 0`, so this form says nothing about the
+    code for `diffuse` outside [0, 1], where numpy's `sqrt` gives NaN (the ADM element classes do not reject such a
+    value: `AudioBlockFormatObjects.diffuse` has no range validator; it is outside the property's quantifier).  Internal
+    lemma; the headline statement is `render_nonneg`. -/
+theorem render_nonneg_real (n : Nat) (path : ZonePath ℝ) (d : List ℝ) (g : List (List ℝ)) (bg og : ℝ) (mute : Bool)
     (isLfe : List Bool) (x : ℝ) (hbg : 0 ≤ bg) (hog : 0 ≤ og) :
     Nonneg (render n path d g bg og mute isLfe x).1 ∧ Nonneg (render n path d g bg og mute isLfe x).2 := by
   rw [render_eq]
@@ -220,8 +246,9 @@ theorem render_lfe_slot {α : Type} [Scalar α] (n : Nat) (path : ZonePath α) (
   simp only [render, directDiffuseSplit, List.getElem?_map, key _ _ i hi, Option.map_some]
   exact ⟨trivial, trivial⟩
 
-/-- **LFE outputs are exactly zero** (over ℝ). -/
-theorem render_lfe_zero (n : Nat) (path : ZonePath ℝ) (d : List ℝ) (g : List (List ℝ)) (bg og : ℝ) (mute : Bool)
+/-- LFE slots over ℝ for ANY `diffuse` (`0 · √… = 0` also where numpy has `0 · NaN = NaN`; see `render_lfe_slot` for the
+    scalar-generic form that keeps the factor).  Internal lemma; the headline statement is `render_lfe_zero`. -/
+theorem render_lfe_zero_real (n : Nat) (path : ZonePath ℝ) (d : List ℝ) (g : List (List ℝ)) (bg og : ℝ) (mute : Bool)
     (isLfe : List Bool) (x : ℝ) (i : Nat) (hi : isLfe[i]? = some true) :
     (render n path d g bg og mute isLfe x).1[i]? = some 0 ∧ (render n path d g bg og mute isLfe x).2[i]? = some 0 := by
   have h := render_lfe_slot n path d g bg og mute isLfe x i hi
@@ -261,7 +288,7 @@ theorem render_power (n : Nat) (path : ZonePath ℝ) (v : Option ℝ) (g : List 
     Nonneg (render n path (divergeGains v) g bg og mute isLfe x).1 ∧
     Nonneg (render n path (divergeGains v) g bg og mute isLfe x).2 ∧
     power (render n path (divergeGains v) g bg og mute isLfe x) = (bg * (if mute then 0 else og)) ^ 2 := by
-  have hnn := render_nonneg n path (divergeGains v) g bg og mute isLfe x hbg hog
+  have hnn := render_nonneg_real n path (divergeGains v) g bg og mute isLfe x hbg hog
   have hb := render_power_bounds 1 1 n path v g bg og mute isLfe x hs hv H1 H2 H3.1 H3.2
   refine ⟨hnn.1, hnn.2, ?_⟩
   have : getObjectGain mute og = if mute then 0 else og := by cases mute <;> simp [getObjectGain]
@@ -280,8 +307,8 @@ theorem render_power_stereo (n : Nat) (path : ZonePath ℝ) (v : Option ℝ) (g 
   rw [← this]
   constructor <;> linarith [hb.1, hb.2]
 
-/-- **Mute.**  A muted object has every gain exactly 0 (no hypothesis on the sub-panners at all). -/
-theorem render_muted_zero (n : Nat) (path : ZonePath ℝ) (d : List ℝ) (g : List (List ℝ)) (bg og : ℝ)
+/-- Mute over ℝ for ANY `diffuse` (same caveat as `render_nonneg_real`).  Internal lemma; headline: `render_muted_zero`. -/
+theorem render_muted_zero_real (n : Nat) (path : ZonePath ℝ) (d : List ℝ) (g : List (List ℝ)) (bg og : ℝ)
     (isLfe : List Bool) (x : ℝ) :
     (∀ y ∈ (render n path d g bg og true isLfe x).1, y = 0) ∧ (∀ y ∈ (render n path d g bg og true isLfe x).2, y = 0) := by
   have hz : ∀ y ∈ scatter isLfe ((panned n path d g).map fun y => y * (bg * getObjectGain true og)), y = 0 := by
@@ -320,6 +347,29 @@ theorem render_muted_zero (n : Nat) (path : ZonePath ℝ) (d : List ℝ) (g : Li
     simp only [directDiffuseSplit, List.mem_map] at hy
     obtain ⟨w, hw, rfl⟩ := hy
     rw [hz w hw, zero_mul]
+
+/-- **Non-negativity.**  Every direct and diffuse gain is ≥ 0, for block gain, object gain ≥ 0 and `0 ≤ diffuse ≤ 1`
+    (H3: inside [0, 1] both `√(1 − diffuse)` and `√diffuse` are square roots of non-negative numbers, as in numpy; outside
+    it the code returns NaN — see `render_nonneg_real`).  No hypothesis on the sub-panners: the panned gains come out of
+    a square root. -/
+theorem render_nonneg (n : Nat) (path : ZonePath ℝ) (d : List ℝ) (g : List (List ℝ)) (bg og : ℝ) (mute : Bool)
+    (isLfe : List Bool) (x : ℝ) (_H3 : 0 ≤ x ∧ x ≤ 1) (hbg : 0 ≤ bg) (hog : 0 ≤ og) :
+    Nonneg (render n path d g bg og mute isLfe x).1 ∧ Nonneg (render n path d g bg og mute isLfe x).2 :=
+  render_nonneg_real n path d g bg og mute isLfe x hbg hog
+
+/-- **LFE outputs are exactly zero**, for `0 ≤ diffuse ≤ 1` (H3; for other values the code has `0 · NaN = NaN` in the
+    LFE slots, which is what `render_lfe_slot` shows for any scalar). -/
+theorem render_lfe_zero (n : Nat) (path : ZonePath ℝ) (d : List ℝ) (g : List (List ℝ)) (bg og : ℝ) (mute : Bool)
+    (isLfe : List Bool) (x : ℝ) (_H3 : 0 ≤ x ∧ x ≤ 1) (i : Nat) (hi : isLfe[i]? = some true) :
+    (render n path d g bg og mute isLfe x).1[i]? = some 0 ∧ (render n path d g bg og mute isLfe x).2[i]? = some 0 :=
+  render_lfe_zero_real n path d g bg og mute isLfe x i hi
+
+/-- **Mute.**  A muted object has every gain exactly 0, for `0 ≤ diffuse ≤ 1` (H3) and no hypothesis on the sub-panners
+    at all.  (With NaN-free panned gains; `nan_to_num` guarantees that in the code.) -/
+theorem render_muted_zero (n : Nat) (path : ZonePath ℝ) (d : List ℝ) (g : List (List ℝ)) (bg og : ℝ)
+    (isLfe : List Bool) (x : ℝ) (_H3 : 0 ≤ x ∧ x ≤ 1) :
+    (∀ y ∈ (render n path d g bg og true isLfe x).1, y = 0) ∧ (∀ y ∈ (render n path d g bg og true isLfe x).2, y = 0) :=
+  render_muted_zero_real n path d g bg og isLfe x
 
 /-! ## polar path: render composed with the extent skeleton -/
 
@@ -388,7 +438,7 @@ theorem render_power_allocentric (n m : Nat) (st : Tree ℝ) (hw : TreeWF m st) 
     Nonneg r.1 ∧ Nonneg r.2 ∧ (∀ i : Nat, isLfe[i]? = some true → r.1[i]? = some 0 ∧ r.2[i]? = some 0) ∧
     power r = (bg * (if mute then 0 else og)) ^ 2 := by
   have h := render_power n (.cartesian excluded) v g bg og mute isLfe x hs hv (allo_rows_unit m st hw g hg) trivial H3 hbg hog
-  exact ⟨h.1, h.2.1, fun i hi => render_lfe_zero n _ _ g bg og mute isLfe x i hi, h.2.2⟩
+  exact ⟨h.1, h.2.1, fun i hi => render_lfe_zero_real n _ _ g bg og mute isLfe x i hi, h.2.2⟩
 
 /-! ## the partial statement -/
 
@@ -426,11 +476,11 @@ theorem C01_partial :
         Nonneg r ∧ sumSq r = 1) := by
   refine ⟨?_, ?_, ?_, ?_, ?_, ?_, ?_, ?_, ?_⟩
   · intro lo hi n path v g bg og mute isLfe x hs hv H1 H2 h0 h1 hbg hog
-    have hnn := render_nonneg n path (divergeGains v) g bg og mute isLfe x hbg hog
+    have hnn := render_nonneg_real n path (divergeGains v) g bg og mute isLfe x hbg hog
     have hb := render_power_bounds lo hi n path v g bg og mute isLfe x hs hv H1 H2 h0 h1
     have : getObjectGain mute og = if mute then 0 else og := by cases mute <;> simp [getObjectGain]
     rw [this] at hb
-    exact ⟨hnn.1, hnn.2, fun i hi => render_lfe_zero n path _ g bg og mute isLfe x i hi, hb.1, hb.2⟩
+    exact ⟨hnn.1, hnn.2, fun i hi => render_lfe_zero_real n path _ g bg og mute isLfe x i hi, hb.1, hb.2⟩
   · exact fun v hv => ⟨diverge_gains_nonneg v hv, diverge_gains_sum_one v (fun y hy => (hv y hy).1)⟩
   · exact fun groups excluded D hn h => downmix_stochastic groups excluded D hn h
   · exact fun p1 p2 hl h1 h2 => ⟨depthCombine_nonneg p1 p2, depthCombine_unit p1 p2 hl h1 h2⟩
@@ -458,20 +508,63 @@ theorem polarHandle_isPolarRow (n : Nat) (p : List ℝ) (s : ℝ → ℝ → Lis
     exact PolarRow.depth _ _ p _ p _ (amountSpread_range _ _).1 (amountSpread_range _ _).2 (amountSpread_range _ _).1
       (amountSpread_range _ _).2 hp.1 (hs _ _).1 hp.1 (hs _ _).1 hp.2 (hs _ _).2 hp.2 (hs _ _).2
 
+/-- `max(extent_mod(e, d), 5)` stays in [5, 360] for an extent in the ADM range [0, 360] -/
+theorem clampedExtent_range (e d : ℝ) (h0 : 0 ≤ e) (h1 : e ≤ 360) :
+    5 ≤ maxS (extentMod e d) (k 5) ∧ maxS (extentMod e d) (k 5) ≤ 360 := by
+  have hr := extentMod_range e d h0 h1
+  have h5 : (k 5 : ℝ) = 5 := by simp only [k_real]; norm_num
+  simp only [maxS, h5]
+  split
+  · exact ⟨le_rfl, by norm_num⟩
+  · rename_i h
+    exact ⟨not_lt.mp h, hr.2⟩
+
+/-- `polarHandle_isPolarRow` with the spreading panner's contract only where it is called: clamped width and height in
+    [5, 360] (width, height inside the ADM range [0, 360]) -/
+theorem polarHandle_isPolarRow_ranged (n : Nat) (p : List ℝ) (s : ℝ → ℝ → List ℝ) (position : V3 ℝ)
+    (width height depth : ℝ) (hw : 0 ≤ width ∧ width ≤ 360) (hh : 0 ≤ height ∧ height ≤ 360)
+    (hp : p.length = n ∧ sumSq p = 1)
+    (hs : ∀ w h, 5 ≤ w → w ≤ 360 → 5 ≤ h → h ≤ 360 → (s w h).length = n ∧ sumSq (s w h) = 1) :
+    PolarRow n (polarHandle n p s position width height depth) := by
+  have hs' : ∀ d, (s (maxS (extentMod width d) (k 5)) (maxS (extentMod height d) (k 5))).length = n ∧
+      sumSq (s (maxS (extentMod width d) (k 5)) (maxS (extentMod height d) (k 5))) = 1 := fun d =>
+    hs _ _ (clampedExtent_range width d hw.1 hw.2).1 (clampedExtent_range width d hw.1 hw.2).2
+      (clampedExtent_range height d hh.1 hh.2).1 (clampedExtent_range height d hh.1 hh.2).2
+  simp only [polarHandle, polarExtents]
+  rcases polarDistances_cases (norm3 position) depth with h | ⟨d1, d2, h, _, _⟩
+  · rw [h]
+    simp only [List.map_cons, List.map_nil, polarCombine]
+    exact PolarRow.single _ p _ (amountSpread_range _ _).1 (amountSpread_range _ _).2 hp.1 (hs' _).1 hp.2 (hs' _).2
+  · rw [h]
+    simp only [List.map_cons, List.map_nil, polarCombine]
+    exact PolarRow.depth _ _ p _ p _ (amountSpread_range _ _).1 (amountSpread_range _ _).2 (amountSpread_range _ _).1
+      (amountSpread_range _ _).2 hp.1 (hs' _).1 hp.1 (hs' _).1 hp.2 (hs' _).2 hp.2 (hs' _).2
+
 /-- the shapes of the zone data and of the extent panner's answers (length `m`) that fit `n` non-LFE channels -/
 def PathShape (n m : Nat) : ZonePath ℝ → Prop
   | .polar D => m = n ∧ D.length = n ∧ ∀ r ∈ D, r.length = n
   | .cartesian ex => ex.length = n ∧ m = countFalse ex
 
+/-- the positions the extent panner of `renderFull` is called with: the diverged positions of the block after
+    positionOffset, `coord_trans` and the three position handlers (none when the offset is rejected) -/
+noncomputable def visitedPositions (o : Oracles ℝ) (b : Block ℝ) : List (V3 ℝ) :=
+  match applyOffset b.cartesian b.coords b.offset with
+  | none => []
+  | some c =>
+    divergePositions b.cartesian (o.channelLock (o.edgeLock (o.screenScale (coordTrans b.cartesian c)))) b.divValue
+      b.azimuthRange b.positionRange b.v2
+
 /-- **The whole of `render`, position pipeline included.**  Whatever the screen-scale, edge-lock and channel-lock
-    handlers do to the position (arbitrary functions), if the extent panner of the path answers *every* position
-    with a non-negative vector of the right length and power in `[lo, hi]`, the zone data are well-shaped and
-    stochastic, and the block's values are in range, then every block the code does not reject satisfies the
-    invariant.  The shape condition "one gain vector per diverged position" is proved, not assumed. -/
+    handlers do to the position (arbitrary functions), if the extent panner of the path answers every position it is
+    CALLED WITH (`visitedPositions`: the diverged positions of this block — not every point of ℝ³, so the contract can
+    be instantiated by panners that misbehave at the origin or far outside the cube) with a non-negative vector of
+    the right length and power in `[lo, hi]`, the zone data are well-shaped and stochastic, and the block's values are
+    in range, then every block the code does not reject satisfies the invariant.  The shape condition "one gain
+    vector per diverged position" is proved, not assumed. -/
 theorem renderFull_power (lo hi : ℝ) (n m : Nat) (o : Oracles ℝ) (path : ZonePath ℝ) (isLfe : List Bool) (b : Block ℝ)
     (r : List ℝ × List ℝ) (h : renderFull n o path isLfe b = some r)
-    (hpan : ∀ pos, (o.extentPan pos).length = m ∧ Nonneg (o.extentPan pos) ∧ lo ≤ sumSq (o.extentPan pos) ∧
-      sumSq (o.extentPan pos) ≤ hi)
+    (hpan : ∀ pos ∈ visitedPositions o b, (o.extentPan pos).length = m ∧ Nonneg (o.extentPan pos) ∧
+      lo ≤ sumSq (o.extentPan pos) ∧ sumSq (o.extentPan pos) ≤ hi)
     (hlfe : countFalse isLfe = n) (hshape : PathShape n m path) (H2 : PathOk path)
     (hv : ∀ y, b.divValue = some y → 0 ≤ y ∧ y ≤ 1) (hx0 : 0 ≤ b.diffuse) (hx1 : b.diffuse ≤ 1) (hbg : 0 ≤ b.gain)
     (hog : 0 ≤ b.objectGain) :
@@ -479,9 +572,11 @@ theorem renderFull_power (lo hi : ℝ) (n m : Nat) (o : Oracles ℝ) (path : Zon
     Nonneg r.1 ∧ Nonneg r.2 ∧ (∀ i : Nat, isLfe[i]? = some true → r.1[i]? = some 0 ∧ r.2[i]? = some 0) ∧
     lo * target ≤ power r ∧ power r ≤ hi * target := by
   simp only [renderFull] at h
+  simp only [visitedPositions] at hpan
   split at h
   · exact absurd h (by simp)
-  · rename_i c _
+  · rename_i c hc
+    simp only [hc] at hpan
     simp only [Option.some.injEq] at h
     subst h
     refine C01_partial.1 lo hi n path b.divValue _ b.gain b.objectGain b.mute isLfe b.diffuse ?_ hv ?_ H2 hx0 hx1 hbg hog
@@ -494,20 +589,20 @@ theorem renderFull_power (lo hi : ℝ) (n m : Nat) (o : Oracles ℝ) (path : Zon
         refine ⟨⟨hlen.symm, hlfe⟩, ⟨?_, hD⟩, hDr⟩
         intro r' hr'
         simp only [List.mem_map] at hr'
-        obtain ⟨q, _, rfl⟩ := hr'
-        rw [(hpan q).1, hm]
+        obtain ⟨q, hq, rfl⟩ := hr'
+        rw [(hpan q hq).1, hm]
       | cartesian ex =>
         obtain ⟨hex, hm⟩ := hshape
         simp only [shapesOk, Bool.and_eq_true, beq_iff_eq, List.all_eq_true, List.length_map]
         refine ⟨⟨hlen.symm, hlfe⟩, hex, ?_⟩
         intro r' hr'
         simp only [List.mem_map] at hr'
-        obtain ⟨q, _, rfl⟩ := hr'
-        rw [(hpan q).1, hm]
+        obtain ⟨q, hq, rfl⟩ := hr'
+        rw [(hpan q hq).1, hm]
     · intro r' hr'
       simp only [List.mem_map] at hr'
-      obtain ⟨q, _, rfl⟩ := hr'
-      exact (hpan q).2
+      obtain ⟨q, hq, rfl⟩ := hr'
+      exact (hpan q hq).2
 
 theorem PolarRow.length_eq {n : Nat} {r : List ℝ} (h : PolarRow n r) : r.length = n := by
   cases h with
@@ -515,34 +610,45 @@ theorem PolarRow.length_eq {n : Nat} {r : List ℝ} (h : PolarRow n r) : r.lengt
   | depth a a' p s p' s' _ _ _ _ hp hs hp' hs' _ _ _ _ =>
     simp [depthCombine, length_calcPvSpread n a p s hp hs, length_calcPvSpread n a' p' s' hp' hs']
 
-/-- the polar extent handler as the oracle of `renderFull`: H1 (with the 1e-10 slack) follows from the two panners' contracts -/
-theorem polarHandle_contract (n : Nat) (p : V3 ℝ → List ℝ) (s : V3 ℝ → ℝ → ℝ → List ℝ) (width height depth : ℝ)
-    (hp : ∀ pos, (p pos).length = n ∧ sumSq (p pos) = 1) (hs : ∀ pos w h, (s pos w h).length = n ∧ sumSq (s pos w h) = 1)
+/-- the polar extent handler as the oracle of `renderFull`, AT ONE POSITION: H1 (with the 1e-10 slack) follows from the
+    contracts of the two panners at that position — the point-source answer `p`, and the spreading panner's answers
+    `s w h` for the clamped extents it can be called with (`5 ≤ w, h ≤ 360`; width, height in the ADM range) -/
+theorem polarHandle_contract (n : Nat) (p : List ℝ) (s : ℝ → ℝ → List ℝ) (width height depth : ℝ)
+    (hw : 0 ≤ width ∧ width ≤ 360) (hh : 0 ≤ height ∧ height ≤ 360)
+    (hp : p.length = n ∧ sumSq p = 1)
+    (hs : ∀ w h, 5 ≤ w → w ≤ 360 → 5 ≤ h → h ≤ 360 → (s w h).length = n ∧ sumSq (s w h) = 1)
     (pos : V3 ℝ) :
-    (polarHandle n (p pos) (s pos) pos width height depth).length = n ∧
-    Nonneg (polarHandle n (p pos) (s pos) pos width height depth) ∧
-    1 - 1 / 10000000000 ≤ sumSq (polarHandle n (p pos) (s pos) pos width height depth) ∧
-    sumSq (polarHandle n (p pos) (s pos) pos width height depth) ≤ 1 := by
-  have hrow := polarHandle_isPolarRow n (p pos) (s pos) pos width height depth (hp pos) (hs pos)
-  have hb := polar_rows_between n [polarHandle n (p pos) (s pos) pos width height depth] (by
-    intro r hr; rw [List.mem_singleton.mp hr]; exact hrow) (polarHandle n (p pos) (s pos) pos width height depth)
+    (polarHandle n p s pos width height depth).length = n ∧
+    Nonneg (polarHandle n p s pos width height depth) ∧
+    1 - 1 / 10000000000 ≤ sumSq (polarHandle n p s pos width height depth) ∧
+    sumSq (polarHandle n p s pos width height depth) ≤ 1 := by
+  have hrow := polarHandle_isPolarRow_ranged n p s pos width height depth hw hh hp hs
+  have hb := polar_rows_between n [polarHandle n p s pos width height depth] (by
+    intro r hr; rw [List.mem_singleton.mp hr]; exact hrow) (polarHandle n p s pos width height depth)
     (List.mem_singleton.mpr rfl)
   exact ⟨hrow.length_eq, hb.1, hb.2.1, hb.2.2⟩
 
-/-- **Polar path end to end over the model**: `renderFull` with `PolarExtentHandler.handle` as its extent panner
-    (point-source and spreading panners answering with unit-power vectors of length `n`), any position handlers,
-    a stochastic `n × n` zone downmix: power in `[(1 − 1e-10), 1] · (gain · object gain)²`, non-negative, LFE zero. -/
+/-- **Polar path end to end over the model**: `renderFull` with `PolarExtentHandler.handle` as its extent panner, any
+    position handlers, a stochastic `n × n` zone downmix; the point-source and spreading panners are required to answer
+    with unit-power vectors of length `n` only at the positions the block visits (`visitedPositions`) and, for the
+    spreading panner, only for clamped extents in [5, 360]: power in `[(1 − 1e-10), 1] · (gain · object gain)²`,
+    non-negative, LFE zero. -/
 theorem renderFull_polar (n : Nat) (ss el cl : V3 ℝ → V3 ℝ) (p : V3 ℝ → List ℝ) (s : V3 ℝ → ℝ → ℝ → List ℝ)
     (width height depth : ℝ) (D : List (List ℝ)) (isLfe : List Bool) (b : Block ℝ) (r : List ℝ × List ℝ)
     (h : renderFull n ⟨ss, el, cl, fun pos => polarHandle n (p pos) (s pos) pos width height depth⟩ (.polar D) isLfe b = some r)
-    (hp : ∀ pos, (p pos).length = n ∧ sumSq (p pos) = 1) (hs : ∀ pos w h, (s pos w h).length = n ∧ sumSq (s pos w h) = 1)
+    (hw : 0 ≤ width ∧ width ≤ 360) (hh : 0 ≤ height ∧ height ≤ 360)
+    (hp : ∀ pos ∈ visitedPositions ⟨ss, el, cl, fun pos => polarHandle n (p pos) (s pos) pos width height depth⟩ b,
+      (p pos).length = n ∧ sumSq (p pos) = 1)
+    (hs : ∀ pos ∈ visitedPositions ⟨ss, el, cl, fun pos => polarHandle n (p pos) (s pos) pos width height depth⟩ b,
+      ∀ w h, 5 ≤ w → w ≤ 360 → 5 ≤ h → h ≤ 360 → (s pos w h).length = n ∧ sumSq (s pos w h) = 1)
     (hlfe : countFalse isLfe = n) (hD : D.length = n ∧ ∀ r ∈ D, r.length = n) (H2 : Stochastic D)
     (hv : ∀ y, b.divValue = some y → 0 ≤ y ∧ y ≤ 1) (hx0 : 0 ≤ b.diffuse) (hx1 : b.diffuse ≤ 1) (hbg : 0 ≤ b.gain)
     (hog : 0 ≤ b.objectGain) :
     let target : ℝ := (b.gain * (if b.mute then 0 else b.objectGain)) ^ 2
     Nonneg r.1 ∧ Nonneg r.2 ∧ (∀ i : Nat, isLfe[i]? = some true → r.1[i]? = some 0 ∧ r.2[i]? = some 0) ∧
     (1 - 1 / 10000000000) * target ≤ power r ∧ power r ≤ 1 * target :=
-  renderFull_power _ 1 n n _ (.polar D) isLfe b r h (fun pos => polarHandle_contract n p s width height depth hp hs pos)
+  renderFull_power _ 1 n n _ (.polar D) isLfe b r h
+    (fun pos hpos => polarHandle_contract n (p pos) (s pos) width height depth hw hh (hp pos hpos) (hs pos hpos) pos)
     hlfe ⟨rfl, hD.1, hD.2⟩ H2 hv hx0 hx1 hbg hog
 
 /-! ## `renderConcrete`: handlers and panners plugged in (models of C13, C19, C05 by import) -/
@@ -590,7 +696,7 @@ theorem renderConcrete_cart_power (E : LayoutEnv ℝ) (P : Conv.Params ℝ) (b :
   have H1 : UnitRows g := fun row hrow => ⟨(hrows row hrow).1, (hrows row hrow).2.1.ge, (hrows row hrow).2.1.le⟩
   have hp := render_power E.n _ b.base.divValue g b.base.gain b.base.objectGain b.base.mute E.isLfe b.base.diffuse hs hv H1
     trivial hx hbg hog
-  exact ⟨hp.1, hp.2.1, fun i hi => render_lfe_zero E.n _ _ g _ _ _ E.isLfe _ i hi, hp.2.2⟩
+  exact ⟨hp.1, hp.2.1, fun i hi => render_lfe_zero_real E.n _ _ g _ _ _ E.isLfe _ i hi, hp.2.2⟩
 
 /-- what `renderConcrete_polar_point_partial` needs of the environment and of the C05 table (table obligations) -/
 structure PolarEnvOk (E : LayoutEnv ℝ) (L : PointSource.RawLayout) : Prop where
@@ -600,11 +706,20 @@ structure PolarEnvOk (E : LayoutEnv ℝ) (L : PointSource.RawLayout) : Prop wher
   wf : L.wellFormed = true
   noStereo : L.stereo = none
   nReal : L.nReal = E.n
+  /-- every Triplet / VirtualNgon fan triangle of the table is invertible with coordinates in [-2, 2] -/
+  nz : pspNzOk L = true
 
-/-- `PolarExtentHandler.handle(pos, 0, 0, 0)` in the point-only regime, with the C05 panner: H1 up to the 1e-10 slack -/
+theorem norm3_sq_gt (pos : V3 ℝ) (h : 1 / 2 < norm3 pos) :
+    1 / 4 < pos.1 * pos.1 + pos.2.1 * pos.2.1 + pos.2.2 * pos.2.2 := by
+  simp only [norm3, sqrt_real] at h
+  have := (Real.lt_sqrt (by norm_num : (0 : ℝ) ≤ 1 / 2)).mp h
+  linarith
+
+/-- `PolarExtentHandler.handle(pos, 0, 0, 0)` in the point-only regime, with the C05 panner: H1 up to the 1e-10 slack.
+    No hypothesis on the panner's answer is left: the point-only regime forces ‖pos‖ > 1/2 (`polarPoint_far`), and there
+    the panner's answer is never the zero vector (`pspHandle_unit`). -/
 theorem polarPointPan_contract (E : LayoutEnv ℝ) (L : PointSource.RawLayout) (hE : PolarEnvOk E L)
-    (hnz : ∀ (pos : V3 ℝ) (p : List ℝ), pspHandle L pos = some p → ∃ x ∈ p, x ≠ 0) (pos : V3 ℝ) (row : List ℝ)
-    (h : polarPointPan E L pos = some row) :
+    (pos : V3 ℝ) (row : List ℝ) (h : polarPointPan E L pos = some row) :
     row.length = E.n ∧ Nonneg row ∧ 1 - 1 / 10000000000 ≤ sumSq row ∧ sumSq row ≤ 1 := by
   simp only [polarPointPan] at h
   split at h
@@ -614,7 +729,8 @@ theorem polarPointPan_contract (E : LayoutEnv ℝ) (L : PointSource.RawLayout) (
     · rename_i hsmall
       simp only [Option.map_eq_some_iff] at h
       obtain ⟨p, hp, rfl⟩ := h
-      obtain ⟨hl, hn, hu⟩ := pspHandle_contract L hE.wf hE.noStereo pos p hp (hnz pos p hp)
+      have hfar := polarPoint_far (norm3 pos) w hh (by simp only [norm3, sqrt_real]; exact Real.sqrt_nonneg _) hext hsmall
+      obtain ⟨hl, hn, hu⟩ := pspHandle_unit L hE.wf hE.noStereo hE.nz pos (norm3_sq_gt pos hfar) p hp
       rw [hE.nReal] at hl
       have hrw : polarHandle E.n p (fun _ _ => []) pos zero zero zero =
           calcPvSpread E.n (amountSpread w hh) p p := by
@@ -629,14 +745,16 @@ theorem polarPointPan_contract (E : LayoutEnv ℝ) (L : PointSource.RawLayout) (
     computes the whole of `render`: position pipeline (polar screen scaling `scaleAzEl`, polar edge lock), the
     egocentric channel lock (C13), `diverge`, the C05 point-source panner walked over its regenerated table (quad roots
     by the closed form), `extent_mod` / `calc_pv_spread` in the point-only regime, the zone mask (C13) and the zone
-    downmix.  Whenever it returns — which includes that the C05 panner returned a result for every (locked, scaled,
-    diverged) direction: C05 totality is NOT proved — and that result is not the all-zero vector (numpy's 0/0), the
-    gains are non-negative, zero on LFE and of power (gain · object gain)² up to `calc_pv_spread`'s 1e-10 threshold
-    slack.  Discharged here: non-negativity and unit norm of the panner's answer (`panner_inherits`, the per-region
-    theorems, `downmix_nonneg_unit`), H2 for every zone list, all shapes.  Not covered: 0+2+0 (stereo wrapper). -/
+    downmix.  Whenever it returns, the gains are non-negative, zero on LFE and of power (gain · object gain)² up to
+    `calc_pv_spread`'s 1e-10 threshold slack.  The ONLY thing the hypothesis `h` contains beyond "the Python does not
+    raise on this block and the block is in the point-only class" is C05 totality: the panner returned a result for
+    every (locked, scaled, diverged) direction (`ps.mapM (polarPointPan E L) = some g` inside `h`) — that is why this
+    is `_partial`.  Discharged here: the panner's answer is never the zero vector at a visited position
+    (`pspHandle_hasPos` via `polarPoint_far`; numpy's 0/0 cannot arise), its non-negativity and unit norm
+    (`panner_inherits`, the per-region theorems, `downmix_nonneg_unit`), H2 for every zone list, all shapes.
+    Not covered: 0+2+0 (stereo wrapper). -/
 theorem renderConcrete_polar_point_partial (E : LayoutEnv ℝ) (P : Conv.Params ℝ) (L : PointSource.RawLayout)
     (b : CBlock ℝ) (r : List ℝ × List ℝ) (hE : PolarEnvOk E L) (h : renderConcretePolarPoint E P L b = some r)
-    (hnz : ∀ (pos : V3 ℝ) (p : List ℝ), pspHandle L pos = some p → ∃ x ∈ p, x ≠ 0)
     (hv : ∀ y, b.base.divValue = some y → 0 ≤ y ∧ y ≤ 1) (hx : 0 ≤ b.base.diffuse ∧ b.base.diffuse ≤ 1)
     (hbg : 0 ≤ b.base.gain) (hog : 0 ≤ b.base.objectGain) :
     let target : ℝ := (b.base.gain * (if b.base.mute then 0 else b.base.objectGain)) ^ 2
@@ -653,7 +771,7 @@ theorem renderConcrete_polar_point_partial (E : LayoutEnv ℝ) (P : Conv.Params 
   have hrows : ∀ row ∈ g, row.length = E.n ∧ Nonneg row ∧ 1 - 1 / 10000000000 ≤ sumSq row ∧ sumSq row ≤ 1 := by
     intro row hrow
     obtain ⟨pos, _, hpos⟩ := mapM_some_mem _ _ g hg row hrow
-    exact polarPointPan_contract E L hE hnz pos row hpos
+    exact polarPointPan_contract E L hE pos row hpos
   have hgl : E.groups.length = E.n := by
     have := hE.groups
     simp only [groupsOk, Bool.and_eq_true, beq_iff_eq] at this
@@ -777,7 +895,8 @@ theorem renderFull_allocentric_layouts (L : LayoutTable) (hL : L ∈ layouts) (s
     obtain ⟨g, hg, hn, hu, hl⟩ := allo_total_layouts L hL pos.1 pos.2.1 pos.2.2
     rw [hg]
     exact ⟨hl, hn, hu.ge, hu.le⟩
-  have := renderFull_power 1 1 L.n L.n _ (.cartesian (List.replicate L.n false)) L.isLfe b r h hpan hk.2
+  have := renderFull_power 1 1 L.n L.n _ (.cartesian (List.replicate L.n false)) L.isLfe b r h
+    (fun pos _ => hpan pos) hk.2
     ⟨List.length_replicate, (countFalse_replicate L.n).symm⟩ trivial hv hx0 hx1 hbg hog
   simp only [one_mul] at this
   exact ⟨this.1, this.2.1, this.2.2.1, le_antisymm this.2.2.2.2 this.2.2.2.1⟩
@@ -803,17 +922,18 @@ theorem renderConcrete_cart_power_layouts (L : LayoutTable) (hL : L ∈ layouts)
 /-- decidable form of `PolarEnvOk` on a pair of regenerated tables (C01 layout table, C05 panner table) -/
 def polarOkB (T : LayoutTable) (L : PointSource.RawLayout) : Bool :=
   groupsOk T.n T.groups && T.spk.length == T.n && countFalse T.isLfe == T.n && L.wellFormed && L.stereo.isNone &&
-    L.nReal == T.n
+    L.nReal == T.n && pspNzOk L
 
 theorem polarEnvOk_of_tables (T : LayoutTable) (L : PointSource.RawLayout) (fuel : Nat) (h : polarOkB T L = true) :
     PolarEnvOk (T.env fuel : LayoutEnv ℝ) L := by
   simp only [polarOkB, Bool.and_eq_true, beq_iff_eq, Option.isNone_iff_eq_none] at h
-  obtain ⟨⟨⟨⟨⟨hg, hs⟩, hl⟩, hw⟩, hst⟩, hn⟩ := h
+  obtain ⟨⟨⟨⟨⟨⟨hg, hs⟩, hl⟩, hw⟩, hst⟩, hn⟩, hz⟩ := h
   exact ⟨by simpa [LayoutTable.env] using hl, by simpa [LayoutTable.env] using hs, by simpa [LayoutTable.env] using hg,
-    hw, hst, by simpa [LayoutTable.env] using hn⟩
+    hw, hst, by simpa [LayoutTable.env] using hn, hz⟩
 
 set_option maxRecDepth 100000 in
-/-- table obligation: every layout except 0+2+0 has a C05 panner table of the same name passing `polarOkB` -/
+/-- table obligation: every layout except 0+2+0 has a C05 panner table of the same name passing `polarOkB`
+    (including `pspNzOk`: invertible, bounded Triplets and VirtualNgon fan triangles) -/
 theorem tables_polar_ok :
     Earverif.Gen.C01.layouts.all (fun T =>
       T.name == "0+2+0" || ((Earverif.Gen.C05.layouts.find? (·.name == T.name)).any (polarOkB T))) = true := by
@@ -824,7 +944,6 @@ theorem renderConcrete_polar_point_partial_layouts (T : LayoutTable) (hT : T ∈
     (hname : T.name ≠ "0+2+0") (fuel : Nat) (P : Conv.Params ℝ) (b : CBlock ℝ) (r : List ℝ × List ℝ) :
     ∃ L ∈ Earverif.Gen.C05.layouts, L.name = T.name ∧
       (renderConcretePolarPoint (T.env fuel) P L b = some r →
-       (∀ (pos : V3 ℝ) (p : List ℝ), pspHandle L pos = some p → ∃ x ∈ p, x ≠ 0) →
        (∀ y, b.base.divValue = some y → 0 ≤ y ∧ y ≤ 1) → 0 ≤ b.base.diffuse ∧ b.base.diffuse ≤ 1 →
        0 ≤ b.base.gain → 0 ≤ b.base.objectGain →
        let target : ℝ := (b.base.gain * (if b.base.mute then 0 else b.base.objectGain)) ^ 2
@@ -841,8 +960,143 @@ theorem renderConcrete_polar_point_partial_layouts (T : LayoutTable) (hT : T ∈
       have hmem := List.mem_of_find?_eq_some hf
       have hn := List.find?_some hf
       refine ⟨L, hmem, by simpa using hn, ?_⟩
-      intro hr hnz hv hx hbg hog
-      exact renderConcrete_polar_point_partial (T.env fuel) P L b r (polarEnvOk_of_tables T L fuel h) hr hnz hv hx hbg hog
+      intro hr hv hx hbg hog
+      exact renderConcrete_polar_point_partial (T.env fuel) P L b r (polarEnvOk_of_tables T L fuel h) hr hv hx hbg hog
+
+/-! ## 0+2+0: the [½, 1] bound on the concrete stereo table -/
+
+/-- what `renderConcrete_polar_point_stereo_bounds_partial` needs of the environment and of the C05 table of 0+2+0 -/
+structure StereoEnvOk (E : LayoutEnv ℝ) (L : PointSource.RawLayout) : Prop where
+  lfe : countFalse E.isLfe = E.n
+  spks : E.spks.length = E.n
+  groups : groupsOk E.n E.groups = true
+  wf : L.wellFormed = true
+  stereo : ∃ l r, L.stereo = some (l, r)
+  n2 : E.n = 2
+  nz : pspNzOk L = true
+
+/-- `PolarExtentHandler.handle(pos, 0, 0, 0)` in the point-only regime on 0+2+0 (`StereoPanDownmix` around the 0+5+0
+    panner of the C05 table): two non-negative gains with power in `[(1 − 1e-10)/2, 1]` -/
+theorem polarPointPan_stereo_contract (E : LayoutEnv ℝ) (L : PointSource.RawLayout) (hE : StereoEnvOk E L)
+    (pos : V3 ℝ) (row : List ℝ) (h : polarPointPan E L pos = some row) :
+    row.length = E.n ∧ Nonneg row ∧ (1 - 1 / 10000000000) * (1 / 2) ≤ sumSq row ∧ sumSq row ≤ 1 := by
+  simp only [polarPointPan] at h
+  split at h
+  · rename_i w hh hext
+    split at h
+    · exact absurd h (by simp)
+    · rename_i hsmall
+      simp only [Option.map_eq_some_iff] at h
+      obtain ⟨p, hp, rfl⟩ := h
+      have hfar := polarPoint_far (norm3 pos) w hh (by simp only [norm3, sqrt_real]; exact Real.sqrt_nonneg _) hext hsmall
+      obtain ⟨l, r, hst⟩ := hE.stereo
+      obtain ⟨hl, hn, hlo, hhi⟩ := pspHandle_stereo_contract L hE.wf l r hst hE.nz pos (norm3_sq_gt pos hfar) p hp
+      rw [← hE.n2] at hl
+      have hrw : polarHandle E.n p (fun _ _ => []) pos zero zero zero =
+          calcPvSpread E.n (amountSpread w hh) p [] := by
+        simp only [polarHandle, hext, List.map_cons, List.map_nil, polarCombine]
+      rw [hrw]
+      exact pvSpread_point_only_bounds E.n (amountSpread w hh) (1 / 2) 1 p [] (amountSpread_range w hh).1 hsmall hl hlo hhi
+        (by norm_num)
+  · exact absurd h (by simp)
+
+/-- **0+2+0, polar point objects (zero extent, distance ≥ 1), PARTIAL.**  `renderConcretePolarPoint` on the stereo table:
+    whenever it returns (which includes C05 totality of the inner 0+5+0 panner — the `_partial`), the gains are
+    non-negative, zero on LFE, and the summed power lies in `[(1 − 1e-10)/2, 1] · (gain · object gain)²` — the property's
+    "between one half and one" for 0+2+0, up to `calc_pv_spread`'s threshold slack. -/
+theorem renderConcrete_polar_point_stereo_bounds_partial (E : LayoutEnv ℝ) (P : Conv.Params ℝ) (L : PointSource.RawLayout)
+    (b : CBlock ℝ) (r : List ℝ × List ℝ) (hE : StereoEnvOk E L) (h : renderConcretePolarPoint E P L b = some r)
+    (hv : ∀ y, b.base.divValue = some y → 0 ≤ y ∧ y ≤ 1) (hx : 0 ≤ b.base.diffuse ∧ b.base.diffuse ≤ 1)
+    (hbg : 0 ≤ b.base.gain) (hog : 0 ≤ b.base.objectGain) :
+    let target : ℝ := (b.base.gain * (if b.base.mute then 0 else b.base.objectGain)) ^ 2
+    Nonneg r.1 ∧ Nonneg r.2 ∧ (∀ i : Nat, E.isLfe[i]? = some true → r.1[i]? = some 0 ∧ r.2[i]? = some 0) ∧
+    (1 - 1 / 10000000000) * (1 / 2) * target ≤ power r ∧ power r ≤ 1 * target := by
+  simp only [renderConcretePolarPoint] at h
+  obtain ⟨p, _, h⟩ := Option.bind_eq_some_iff.mp h
+  obtain ⟨q, _, h⟩ := Option.bind_eq_some_iff.mp h
+  obtain ⟨g, hg, h⟩ := Option.bind_eq_some_iff.mp h
+  obtain ⟨zmask, hz, h⟩ := Option.bind_eq_some_iff.mp h
+  obtain ⟨D, hD, h⟩ := Option.bind_eq_some_iff.mp h
+  simp only [Option.some.injEq] at h
+  subst h
+  have hrows : ∀ row ∈ g, row.length = E.n ∧ Nonneg row ∧ (1 - 1 / 10000000000) * (1 / 2) ≤ sumSq row ∧ sumSq row ≤ 1 := by
+    intro row hrow
+    obtain ⟨pos, _, hpos⟩ := mapM_some_mem _ _ g hg row hrow
+    exact polarPointPan_stereo_contract E L hE pos row hpos
+  have hgl : E.groups.length = E.n := by
+    have := hE.groups
+    simp only [groupsOk, Bool.and_eq_true, beq_iff_eq] at this
+    exact this.1
+  have hsh := downmix_shape E.groups zmask D hD
+  rw [hgl] at hsh
+  have hst := downmix_stochastic E.groups zmask D (groups_nodup_of_ok E.n E.groups hE.groups) hD
+  have hs : shapesOk E.n (.polar D) (divergeGains b.base.divValue) g E.isLfe = true := by
+    simp only [shapesOk, Bool.and_eq_true, beq_iff_eq, List.all_eq_true]
+    refine ⟨⟨?_, hE.lfe⟩, ⟨fun row hrow => (hrows row hrow).1, hsh.1⟩, hsh.2⟩
+    rw [mapM_length _ _ g hg, divergePositions_length]
+  exact C01_partial.1 _ 1 E.n (.polar D) b.base.divValue g b.base.gain b.base.objectGain b.base.mute E.isLfe
+    b.base.diffuse hs hv (fun row hrow => (hrows row hrow).2) hst hx.1 hx.2 hbg hog
+
+/-- decidable form of `StereoEnvOk` on a pair of regenerated tables -/
+def stereoOkB (T : LayoutTable) (L : PointSource.RawLayout) : Bool :=
+  groupsOk T.n T.groups && T.spk.length == T.n && countFalse T.isLfe == T.n && L.wellFormed && L.stereo.isSome &&
+    T.n == 2 && pspNzOk L
+
+theorem stereoEnvOk_of_tables (T : LayoutTable) (L : PointSource.RawLayout) (fuel : Nat) (h : stereoOkB T L = true) :
+    StereoEnvOk (T.env fuel : LayoutEnv ℝ) L := by
+  simp only [stereoOkB, Bool.and_eq_true, beq_iff_eq, Option.isSome_iff_exists] at h
+  obtain ⟨⟨⟨⟨⟨⟨hg, hs⟩, hl⟩, hw⟩, ⟨lr, hst⟩⟩, hn⟩, hz⟩ := h
+  exact ⟨by simpa [LayoutTable.env] using hl, by simpa [LayoutTable.env] using hs, by simpa [LayoutTable.env] using hg,
+    hw, ⟨lr.1, lr.2, hst⟩, by simpa [LayoutTable.env] using hn, hz⟩
+
+set_option maxRecDepth 100000 in
+/-- table obligation: the 0+2+0 layout table and the 0+2+0 panner table exist and pass `stereoOkB` -/
+theorem tables_stereo_ok :
+    (Earverif.Gen.C01.layouts.find? (·.name == "0+2+0")).any (fun T =>
+      (Earverif.Gen.C05.layouts.find? (·.name == "0+2+0")).any (stereoOkB T)) = true := by
+  decide +kernel
+
+/-- **`renderConcrete_polar_point_stereo_bounds_partial` on the regenerated 0+2+0 tables** -/
+theorem renderConcrete_polar_point_stereo_bounds_partial_layouts (fuel : Nat) (P : Conv.Params ℝ) (b : CBlock ℝ)
+    (r : List ℝ × List ℝ) :
+    ∃ T ∈ Earverif.Gen.C01.layouts, T.name = "0+2+0" ∧ ∃ L ∈ Earverif.Gen.C05.layouts, L.name = "0+2+0" ∧
+      (renderConcretePolarPoint (T.env fuel) P L b = some r →
+       (∀ y, b.base.divValue = some y → 0 ≤ y ∧ y ≤ 1) → 0 ≤ b.base.diffuse ∧ b.base.diffuse ≤ 1 →
+       0 ≤ b.base.gain → 0 ≤ b.base.objectGain →
+       let target : ℝ := (b.base.gain * (if b.base.mute then 0 else b.base.objectGain)) ^ 2
+       Nonneg r.1 ∧ Nonneg r.2 ∧ (∀ i : Nat, T.isLfe[i]? = some true → r.1[i]? = some 0 ∧ r.2[i]? = some 0) ∧
+       (1 - 1 / 10000000000) * (1 / 2) * target ≤ power r ∧ power r ≤ 1 * target) := by
+  have h := tables_stereo_ok
+  cases hT : Earverif.Gen.C01.layouts.find? (fun T => T.name == "0+2+0") with
+  | none => simp [hT] at h
+  | some T =>
+    simp only [hT, Option.any_some] at h
+    cases hL : Earverif.Gen.C05.layouts.find? (fun L => L.name == "0+2+0") with
+    | none => simp [hL] at h
+    | some L =>
+      simp only [hL, Option.any_some] at h
+      refine ⟨T, List.mem_of_find?_eq_some hT, by simpa using List.find?_some hT, L, List.mem_of_find?_eq_some hL,
+        by simpa using List.find?_some hL, ?_⟩
+      intro hr hv hx hbg hog
+      exact renderConcrete_polar_point_stereo_bounds_partial (T.env fuel) P L b r (stereoEnvOk_of_tables T L fuel h) hr hv hx
+        hbg hog
+
+open Earverif.Gen.C01 in
+/-- **0+2+0, Cartesian point objects**: on the regenerated 0+2+0 table the power is exactly (gain · object gain)²
+    (`renderConcrete_cart_power_layouts`; the allocentric panner has unit power on two loudspeakers as well), in particular
+    inside the property's [½, 1] band. -/
+theorem renderConcrete_cart_stereo_bounds (L : LayoutTable) (hL : L ∈ layouts) (_hname : L.name = "0+2+0") (fuel : Nat)
+    (P : Conv.Params ℝ) (b : CBlock ℝ) (r : List ℝ × List ℝ) (h : renderConcreteCart (L.env fuel) P b = some r)
+    (hv : ∀ y, b.base.divValue = some y → 0 ≤ y ∧ y ≤ 1) (hx : 0 ≤ b.base.diffuse ∧ b.base.diffuse ≤ 1)
+    (hbg : 0 ≤ b.base.gain) (hog : 0 ≤ b.base.objectGain) :
+    let target : ℝ := (b.base.gain * (if b.base.mute then 0 else b.base.objectGain)) ^ 2
+    Nonneg r.1 ∧ Nonneg r.2 ∧ (∀ i : Nat, L.isLfe[i]? = some true → r.1[i]? = some 0 ∧ r.2[i]? = some 0) ∧
+    1 / 2 * target ≤ power r ∧ power r ≤ target := by
+  obtain ⟨h1, h2, h3, h4⟩ := renderConcrete_cart_power_layouts L hL fuel P b r h hv hx hbg hog
+  refine ⟨h1, h2, h3, ?_, h4.le⟩
+  rw [h4]
+  have : 0 ≤ (b.base.gain * (if b.base.mute then 0 else b.base.objectGain)) ^ 2 := by positivity
+  linarith
 
 open Earverif.Gen.C01 in
 /-- **Polar path on the ten layouts, every zone-exclusion mask**: H2 is discharged by the regenerated groups; what
@@ -864,6 +1118,231 @@ theorem render_power_polar_layouts (L : LayoutTable) (hL : L ∈ layouts) (exclu
     simp only [shapesOk, Bool.and_eq_true, beq_iff_eq, List.all_eq_true]
     exact ⟨⟨hlen, hk.2⟩, ⟨hgl, hDl⟩, hDr⟩
   exact C01_partial.1 lo hi L.n (.polar D) v g bg og mute L.isLfe x hs hv H1 hst H3.1 H3.2 hbg hog
+
+/-! ## polar point objects on the nominal tables: no panner hypothesis left (C05 totality plugged in) -/
+
+/-- on a nominal C05 table the point-source branch of `PolarExtentHandler.handle(pos, 0, 0, 0)` answers every position of the
+    point-only class: `Earverif.PointSource.pspHandle_total_layouts` (C05 totality) — the class excludes the origin -/
+theorem polarPointPan_total (E : LayoutEnv ℝ) (L : PointSource.RawLayout) (hL : L ∈ Earverif.Gen.C05.layouts) (pos : V3 ℝ)
+    (hc : InPointClass pos) : ∃ row, polarPointPan E L pos = some row := by
+  have hne := hc.ne_zero
+  obtain ⟨w, h, he, hs⟩ := hc
+  simp only [polarPointPan, he]
+  rw [if_neg hs]
+  cases hp : pspHandle L pos with
+  | none => exact absurd hp (PointSource.pspHandle_total_layouts L hL pos hne)
+  | some pv => exact ⟨_, rfl⟩
+
+/-- **`renderConcretePolarPoint` returns gains on a nominal table** whenever the stages that are NOT the panner succeed: the
+    position pipeline (positionOffset in range, screen edges), the channel lock, the zone mask — and the locked position is
+    in the point-only class (e.g. at distance ≥ 1, `inPointClass_of_far`).  The panner and the zone downmix never fail. -/
+theorem renderConcretePolarPoint_total (E : LayoutEnv ℝ) (P : Conv.Params ℝ) (L : PointSource.RawLayout)
+    (hL : L ∈ Earverif.Gen.C05.layouts) (hg : groupsOk E.n E.groups = true) (hsp : E.spks.length = E.n) (b : CBlock ℝ)
+    (p : V3 ℝ) (q : Zone.P3 ℝ) (zmask : List Bool) (hp : positionBeforeLock E P b = some p)
+    (hq : CartLock.lockedPosition E.normPos (toP3 p) (Lock.lockHandle false E.normPos E.prio [] (toP3 p) b.lock) = some q)
+    (hc : InPointClass (ofP3 q)) (hz : Zone.getExcluded E.fuel E.spks b.zones = some zmask) :
+    ∃ r, renderConcretePolarPoint E P L b = some r := by
+  have hrows : ∀ pos ∈ divergePositions false (ofP3 q) b.base.divValue b.base.azimuthRange b.base.positionRange b.base.v2,
+      ∃ row, polarPointPan E L pos = some row := fun pos hpos =>
+    polarPointPan_total E L hL pos (hc.of_norm_eq (diverge_polar_norm (ofP3 q) _ _ _ _ pos hpos))
+  obtain ⟨g, hg'⟩ := mapM_some_of_forall (polarPointPan E L) _ hrows
+  obtain ⟨D, hD⟩ := downmix_total E.n E.groups hg zmask (by rw [C13.getExcluded_length E.fuel E.spks b.zones zmask hz, hsp])
+  simp only [renderConcretePolarPoint, hp, Option.bind_some, hq, hg', hz, hD]
+  exact ⟨_, rfl⟩
+
+/-- **Polar point objects on the nine non-stereo BS.2051 layouts — no hypothesis about the panner.**  For every block whose
+    position pipeline, channel lock and zone mask do not fail (`hp`, `hq`, `hz`: the Python raises exactly there) and whose
+    locked position is in the point-only class (`hc`; every distance ≥ 1), and for values inside the ADM ranges,
+    `renderConcretePolarPoint` on the regenerated tables RETURNS gains and they are non-negative, zero on LFE and of power
+    (gain · object gain)² up to `calc_pv_spread`'s 1e-10 threshold slack — for every zone list, lock, screenRef / reference
+    screen, edge lock, positionOffset and divergence.  C05 totality (`pspHandle_total_layouts`) + the non-zero answer
+    (`pspHandle_hasPos`) + `diverge_polar_norm`. -/
+theorem renderConcrete_polar_point_layouts (T : LayoutTable) (hT : T ∈ Earverif.Gen.C01.layouts)
+    (hname : T.name ≠ "0+2+0") (fuel : Nat) (P : Conv.Params ℝ) (b : CBlock ℝ) :
+    ∃ L ∈ Earverif.Gen.C05.layouts, L.name = T.name ∧
+      ∀ (p : V3 ℝ) (q : Zone.P3 ℝ) (zmask : List Bool),
+      positionBeforeLock (T.env fuel) P b = some p →
+      CartLock.lockedPosition (T.env fuel : LayoutEnv ℝ).normPos (toP3 p)
+        (Lock.lockHandle false (T.env fuel : LayoutEnv ℝ).normPos (T.env fuel : LayoutEnv ℝ).prio [] (toP3 p) b.lock) = some q →
+      InPointClass (ofP3 q) → Zone.getExcluded fuel (T.env fuel : LayoutEnv ℝ).spks b.zones = some zmask →
+      (∀ y, b.base.divValue = some y → 0 ≤ y ∧ y ≤ 1) → 0 ≤ b.base.diffuse ∧ b.base.diffuse ≤ 1 →
+      0 ≤ b.base.gain → 0 ≤ b.base.objectGain →
+      ∃ r, renderConcretePolarPoint (T.env fuel) P L b = some r ∧
+        let target : ℝ := (b.base.gain * (if b.base.mute then 0 else b.base.objectGain)) ^ 2
+        Nonneg r.1 ∧ Nonneg r.2 ∧ (∀ i : Nat, T.isLfe[i]? = some true → r.1[i]? = some 0 ∧ r.2[i]? = some 0) ∧
+        (1 - 1 / 10000000000) * target ≤ power r ∧ power r ≤ 1 * target := by
+  have h := List.all_eq_true.mp tables_polar_ok T hT
+  simp only [Bool.or_eq_true, beq_iff_eq] at h
+  rcases h with h | h
+  · exact absurd h hname
+  · cases hf : Earverif.Gen.C05.layouts.find? (fun L => L.name == T.name) with
+    | none => simp [hf] at h
+    | some L =>
+      simp only [hf, Option.any_some] at h
+      have hmem := List.mem_of_find?_eq_some hf
+      have hn := List.find?_some hf
+      refine ⟨L, hmem, by simpa using hn, ?_⟩
+      intro p q zmask hp hq hc hz hv hx hbg hog
+      have hE := polarEnvOk_of_tables T L fuel h
+      obtain ⟨r, hr⟩ := renderConcretePolarPoint_total (T.env fuel) P L hmem hE.groups hE.spks b p q zmask hp hq hc hz
+      exact ⟨r, hr, renderConcrete_polar_point_partial (T.env fuel) P L b r hE hr hv hx hbg hog⟩
+
+/-- **0+2+0, polar point objects — no hypothesis about the panner**: as `renderConcrete_polar_point_layouts`, on the
+    regenerated stereo tables, with the property's band: power in `[(1 − 1e-10)/2, 1] · (gain · object gain)²` -/
+theorem renderConcrete_polar_point_stereo_bounds_layouts (fuel : Nat) (P : Conv.Params ℝ) (b : CBlock ℝ) :
+    ∃ T ∈ Earverif.Gen.C01.layouts, T.name = "0+2+0" ∧ ∃ L ∈ Earverif.Gen.C05.layouts, L.name = "0+2+0" ∧
+      ∀ (p : V3 ℝ) (q : Zone.P3 ℝ) (zmask : List Bool),
+      positionBeforeLock (T.env fuel) P b = some p →
+      CartLock.lockedPosition (T.env fuel : LayoutEnv ℝ).normPos (toP3 p)
+        (Lock.lockHandle false (T.env fuel : LayoutEnv ℝ).normPos (T.env fuel : LayoutEnv ℝ).prio [] (toP3 p) b.lock) = some q →
+      InPointClass (ofP3 q) → Zone.getExcluded fuel (T.env fuel : LayoutEnv ℝ).spks b.zones = some zmask →
+      (∀ y, b.base.divValue = some y → 0 ≤ y ∧ y ≤ 1) → 0 ≤ b.base.diffuse ∧ b.base.diffuse ≤ 1 →
+      0 ≤ b.base.gain → 0 ≤ b.base.objectGain →
+      ∃ r, renderConcretePolarPoint (T.env fuel) P L b = some r ∧
+        let target : ℝ := (b.base.gain * (if b.base.mute then 0 else b.base.objectGain)) ^ 2
+        Nonneg r.1 ∧ Nonneg r.2 ∧ (∀ i : Nat, T.isLfe[i]? = some true → r.1[i]? = some 0 ∧ r.2[i]? = some 0) ∧
+        (1 - 1 / 10000000000) * (1 / 2) * target ≤ power r ∧ power r ≤ 1 * target := by
+  have h := tables_stereo_ok
+  cases hT : Earverif.Gen.C01.layouts.find? (fun T => T.name == "0+2+0") with
+  | none => simp [hT] at h
+  | some T =>
+    simp only [hT, Option.any_some] at h
+    cases hL : Earverif.Gen.C05.layouts.find? (fun L => L.name == "0+2+0") with
+    | none => simp [hL] at h
+    | some L =>
+      simp only [hL, Option.any_some] at h
+      have hLm := List.mem_of_find?_eq_some hL
+      refine ⟨T, List.mem_of_find?_eq_some hT, by simpa using List.find?_some hT, L, hLm,
+        by simpa using List.find?_some hL, ?_⟩
+      intro p q zmask hp hq hc hz hv hx hbg hog
+      have hE := stereoEnvOk_of_tables T L fuel h
+      obtain ⟨r, hr⟩ := renderConcretePolarPoint_total (T.env fuel) P L hLm hE.groups hE.spks b p q zmask hp hq hc hz
+      exact ⟨r, hr, renderConcrete_polar_point_stereo_bounds_partial (T.env fuel) P L b r hE hr hv hx hbg hog⟩
+
+/-! ## totality on plain blocks (the hypotheses `renderConcrete… = some r` are satisfiable on the regenerated tables) -/
+
+/-- the layout's screen in the table is absent or a polar screen straight ahead (azimuth = elevation = 0, distance > 0,
+    0 < width < 180), decided on the exact rationals; and the layout has at least one loudspeaker -/
+def screenFrontB (T : LayoutTable) : Bool :=
+  decide (0 < T.n) &&
+  match T.screen with
+  | none => true
+  | some (pol, [_, c1, c2, c3, w]) =>
+    pol && (mkRat c1.1 c1.2 == 0) && (mkRat c2.1 c2.2 == 0) && decide (0 < mkRat c3.1 c3.2) && decide (0 < mkRat w.1 w.2) &&
+      decide (mkRat w.1 w.2 < 180)
+  | some _ => false
+
+theorem screenOk_of_table (T : LayoutTable) (fuel : Nat) (h : screenFrontB T = true) : ScreenOk (T.env fuel : LayoutEnv ℝ) := by
+  intro rep hrep
+  simp only [LayoutTable.env] at hrep
+  simp only [screenFrontB, Bool.and_eq_true, decide_eq_true_eq] at h
+  obtain ⟨_, h⟩ := h
+  cases hs : T.screen with
+  | none => simp [hs] at hrep
+  | some sc =>
+    obtain ⟨pol, row⟩ := sc
+    simp only [hs, Option.bind_some, screenOfRow] at hrep
+    rw [hs] at h
+    match row, h, hrep with
+    | [a, c1, c2, c3, w], h, hrep =>
+      simp only [Bool.and_eq_true, beq_iff_eq, decide_eq_true_eq] at h
+      obtain ⟨⟨⟨⟨⟨hpol, h1⟩, h2⟩, h3⟩, h4⟩, h5⟩ := h
+      simp only [Option.some.injEq] at hrep
+      subst hrep
+      refine polarEdges_front _ hpol (qOf c3) ?_ ?_ ?_ ?_
+      · simp only [qOf, k_real, h1, h2]; simp
+      · simp only [qOf, k_real]; exact_mod_cast h3
+      · simp only [qOf, k_real]; exact_mod_cast h4
+      · simp only [qOf, k_real]; exact_mod_cast h5
+
+open Earverif.Gen.C01 in
+set_option maxRecDepth 100000 in
+/-- table obligation of the totality theorems: every layout has a loudspeaker and a screen straight ahead (or none) -/
+theorem tables_screen_ok : layouts.all screenFrontB = true := by decide +kernel
+
+open Earverif.Gen.C01 in
+/-- **Cartesian point objects: `render` never raises on a plain block, on any of the ten layouts** — zero extent, no
+    positionOffset / screenRef / screenEdgeLock / zones / channelLock; ANY position, divergence, gains, diffuse, mute.  In
+    particular the hypothesis `renderConcreteCart … = some r` of `renderConcrete_cart_power_layouts` is satisfiable. -/
+theorem renderConcreteCart_plain_total_layouts (T : LayoutTable) (hT : T ∈ layouts) (fuel : Nat) (P : Conv.Params ℝ)
+    (b : CBlock ℝ) (hb : PlainBlock b) : ∃ r, renderConcreteCart (T.env fuel) P b = some r := by
+  have hE := envOk_of_table T fuel (List.all_eq_true.mp tables_env_ok T hT)
+  have hsf := List.all_eq_true.mp tables_screen_ok T hT
+  have hn : 0 < T.n := by
+    simp only [screenFrontB, Bool.and_eq_true, decide_eq_true_eq] at hsf
+    exact hsf.1
+  refine renderConcreteCart_plain_total (T.env fuel) P b (by rw [hE.spks, hE.allo]) hE.distinct ?_
+    (screenOk_of_table T fuel hsf) hb
+  intro h0
+  have := hE.allo
+  rw [h0] at this
+  simp only [List.length_nil, LayoutTable.env] at this
+  omega
+
+/-- the C05 table has a Triplet whose first loudspeaker is the front loudspeaker (0, 1, 0) -/
+def frontTripletB (L : PointSource.RawLayout) : Bool :=
+  L.regions.any fun r => r.kind == 0 && match r.pos with
+    | [a, _, _] => a == (((0, 0), (1, 0), (0, 0)) : PointSource.P3)
+    | _ => false
+
+/-- **Polar point objects: a block straight ahead at distance 1 is rendered** on every non-stereo layout whose C05 table has
+    a Triplet starting at the front loudspeaker (so the hypothesis `renderConcretePolarPoint … = some r` of
+    `renderConcrete_polar_point_partial` is satisfiable there) -/
+theorem renderConcretePolarPoint_front_total_layouts (T : LayoutTable) (hT : T ∈ Earverif.Gen.C01.layouts)
+    (L : PointSource.RawLayout) (hok : polarOkB T L = true) (hfront : frontTripletB L = true) (fuel : Nat)
+    (P : Conv.Params ℝ) (blk : CBlock ℝ) (hb : PlainBlock blk) (hpolar : blk.base.cartesian = false)
+    (hcoords : blk.base.coords = (0, 0, 1)) (hdiv : blk.base.divValue = none) :
+    ∃ out, renderConcretePolarPoint (T.env fuel) P L blk = some out := by
+  have hE := polarEnvOk_of_tables T L fuel hok
+  have hsf := List.all_eq_true.mp tables_screen_ok T hT
+  simp only [frontTripletB, List.any_eq_true, Bool.and_eq_true, beq_iff_eq] at hfront
+  obtain ⟨r, hr, hk, hpos⟩ := hfront
+  have hgl : (T.env fuel : LayoutEnv ℝ).groups.length = (T.env fuel : LayoutEnv ℝ).n := by
+    have := hE.groups
+    simp only [groupsOk, Bool.and_eq_true, beq_iff_eq] at this
+    exact this.1
+  match hp : r.pos, hpos with
+  | [a, b, c], hpos =>
+    simp only [beq_iff_eq] at hpos
+    subst hpos
+    exact renderConcretePolarPoint_front_total (T.env fuel) P L (by rw [hE.spks, hgl]) hE.wf hE.noStereo hE.nz
+      (screenOk_of_table T fuel hsf) r hr hk b c hp blk hb hpolar hcoords hdiv
+
+set_option maxRecDepth 100000 in
+/-- table obligation of the polar non-vacuity example: the 4+5+0 tables pass `polarOkB` and have the front Triplet -/
+theorem tables_front_ok :
+    (Earverif.Gen.C01.layouts.find? (·.name == "4+5+0")).any (fun T =>
+      (Earverif.Gen.C05.layouts.find? (·.name == "4+5+0")).any (fun L => polarOkB T L && frontTripletB L)) = true := by
+  decide +kernel
+
+/-- the C05 table has a VirtualNgon whose virtual centre is straight up, (0, 0, 1) -/
+def upNgonB (L : PointSource.RawLayout) : Bool :=
+  L.regions.any fun r => r.kind == 1 && r.centre == (((0, 0), (0, 0), (1, 0)) : PointSource.P3)
+
+/-- **0+2+0: a polar point block straight up at distance 1 is rendered** on the stereo tables (so the hypothesis
+    `renderConcretePolarPoint … = some r` of `renderConcrete_polar_point_stereo_bounds_partial` is satisfiable) -/
+theorem renderConcretePolarPoint_up_total_stereo (T : LayoutTable) (hT : T ∈ Earverif.Gen.C01.layouts)
+    (L : PointSource.RawLayout) (hok : stereoOkB T L = true) (hup : upNgonB L = true) (fuel : Nat)
+    (P : Conv.Params ℝ) (blk : CBlock ℝ) (hb : PlainBlock blk) (hpolar : blk.base.cartesian = false)
+    (hcoords : blk.base.coords = (0, 90, 1)) (hdiv : blk.base.divValue = none) :
+    ∃ out, renderConcretePolarPoint (T.env fuel) P L blk = some out := by
+  have hE := stereoEnvOk_of_tables T L fuel hok
+  have hsf := List.all_eq_true.mp tables_screen_ok T hT
+  simp only [upNgonB, List.any_eq_true, Bool.and_eq_true, beq_iff_eq] at hup
+  obtain ⟨r, hr, hk, hc⟩ := hup
+  have hgl : (T.env fuel : LayoutEnv ℝ).groups.length = (T.env fuel : LayoutEnv ℝ).n := by
+    have := hE.groups
+    simp only [groupsOk, Bool.and_eq_true, beq_iff_eq] at this
+    exact this.1
+  exact renderConcretePolarPoint_up_total (T.env fuel) P L (by rw [hE.spks, hgl]) hE.wf hE.nz
+    (screenOk_of_table T fuel hsf) r hr hk hc blk hb hpolar hcoords hdiv
+
+set_option maxRecDepth 100000 in
+/-- table obligation of the stereo non-vacuity example: the 0+2+0 tables pass `stereoOkB` and have the top VirtualNgon -/
+theorem tables_up_ok :
+    (Earverif.Gen.C01.layouts.find? (·.name == "0+2+0")).any (fun T =>
+      (Earverif.Gen.C05.layouts.find? (·.name == "0+2+0")).any (fun L => stereoOkB T L && upNgonB L)) = true := by
+  decide +kernel
 
 /-! ## non-vacuity: concrete inputs that satisfy the hypotheses -/
 
@@ -956,5 +1435,169 @@ example : sumSq ([1, 0] : List ℝ) = 1 ∧ sumSq ([3 / 5, 4 / 5] : List ℝ) = 
 example : ∃ r, renderFull 2 ⟨id, id, id, fun _ => [1, 0]⟩ (.cartesian [false, false]) [false, false]
     (⟨true, (0, 0, 0), none, none, none, none, false, 1, 0, 1, false⟩ : Block ℝ) = some r := by
   simp [renderFull, applyOffset]
+
+/-- a plain block: Cartesian at the centre of the room, or polar straight ahead at distance 1; block gain 1/2, object gain
+    3, diffuse 1/4, not muted -/
+noncomputable def exBlock (cartesian : Bool) : CBlock ℝ :=
+  ⟨⟨cartesian, if cartesian then (0, 0, 0) else (0, 0, 1), none, none, none, none, true, 1 / 2, 1 / 4, 3, false⟩, false,
+    ⟨true, 1, (0, 0, 1), 58⟩, ⟨none, none⟩, [], none⟩
+
+theorem exBlock_plain (c : Bool) : PlainBlock (exBlock c) := ⟨rfl, rfl, rfl, rfl, rfl⟩
+
+theorem exBlock_ranges (c : Bool) :
+    (∀ y, (exBlock c).base.divValue = some y → 0 ≤ y ∧ y ≤ 1) ∧ (0 ≤ (exBlock c).base.diffuse ∧ (exBlock c).base.diffuse ≤ 1) ∧
+    0 ≤ (exBlock c).base.gain ∧ 0 ≤ (exBlock c).base.objectGain := by
+  refine ⟨by intro y h; simp [exBlock] at h, ?_, ?_, ?_⟩ <;> simp only [exBlock] <;> norm_num
+
+open Earverif.Gen.C01 in
+/-- **non-vacuity of `renderConcrete_cart_power(_layouts)`**: on EVERY one of the ten regenerated layout tables (any fuel,
+    any conversion table) the block `exBlock true` satisfies ALL hypotheses — `renderConcreteCart` returns a result, `EnvOk`
+    holds, the value ranges hold — and the conclusion is a non-trivial power (3/2)² -/
+example (T : LayoutTable) (hT : T ∈ layouts) (fuel : Nat) (P : Conv.Params ℝ) :
+    ∃ r, renderConcreteCart (T.env fuel) P (exBlock true) = some r ∧ EnvOk (T.env fuel : LayoutEnv ℝ) ∧
+      (∀ y, (exBlock true).base.divValue = some y → 0 ≤ y ∧ y ≤ 1) ∧
+      (0 ≤ (exBlock true).base.diffuse ∧ (exBlock true).base.diffuse ≤ 1) ∧ 0 ≤ (exBlock true).base.gain ∧
+      0 ≤ (exBlock true).base.objectGain ∧ power r = (3 / 2) ^ 2 := by
+  obtain ⟨r, hr⟩ := renderConcreteCart_plain_total_layouts T hT fuel P (exBlock true) (exBlock_plain true)
+  obtain ⟨hv, hx, hbg, hog⟩ := exBlock_ranges true
+  refine ⟨r, hr, envOk_of_table T fuel (List.all_eq_true.mp tables_env_ok T hT), hv, hx, hbg, hog, ?_⟩
+  have := (renderConcrete_cart_power_layouts T hT fuel P (exBlock true) r hr hv hx hbg hog).2.2.2
+  rw [this]
+  simp only [exBlock]
+  norm_num
+
+/-- **non-vacuity of `renderConcrete_polar_point_partial(_layouts)` and of `polarPointPan_contract`**: on the regenerated
+    4+5+0 tables the block `exBlock false` (straight ahead, distance 1) satisfies ALL hypotheses: `renderConcretePolarPoint`
+    returns a result (the C05 panner answers at the front loudspeaker), `PolarEnvOk` holds, the value ranges hold -/
+example (fuel : Nat) (P : Conv.Params ℝ) :
+    ∃ T ∈ Earverif.Gen.C01.layouts, ∃ L ∈ Earverif.Gen.C05.layouts, T.name = "4+5+0" ∧ L.name = T.name ∧
+      PolarEnvOk (T.env fuel : LayoutEnv ℝ) L ∧ ∃ r, renderConcretePolarPoint (T.env fuel) P L (exBlock false) = some r ∧
+      (9 / 4 : ℝ) * (1 - 1 / 10000000000) ≤ power r ∧ power r ≤ 9 / 4 := by
+  have h := tables_front_ok
+  cases hT : Earverif.Gen.C01.layouts.find? (fun T => T.name == "4+5+0") with
+  | none => simp [hT] at h
+  | some T =>
+    simp only [hT, Option.any_some] at h
+    cases hL : Earverif.Gen.C05.layouts.find? (fun L => L.name == "4+5+0") with
+    | none => simp [hL] at h
+    | some L =>
+      simp only [hL, Option.any_some, Bool.and_eq_true] at h
+      have hTm := List.mem_of_find?_eq_some hT
+      have hTn : T.name = "4+5+0" := by simpa using List.find?_some hT
+      have hLn : L.name = "4+5+0" := by simpa using List.find?_some hL
+      have hE := polarEnvOk_of_tables T L fuel h.1
+      obtain ⟨r, hr⟩ := renderConcretePolarPoint_front_total_layouts T hTm L h.1 h.2 fuel P (exBlock false) (exBlock_plain false)
+        rfl rfl rfl
+      obtain ⟨hv, hx, hbg, hog⟩ := exBlock_ranges false
+      have hb := renderConcrete_polar_point_partial (T.env fuel) P L (exBlock false) r hE hr hv hx hbg hog
+      refine ⟨T, hTm, L, List.mem_of_find?_eq_some hL, hTn, by rw [hLn, hTn], hE, r, hr, ?_, ?_⟩
+      · have := hb.2.2.2.1
+        simp only [exBlock] at this
+        norm_num at this ⊢
+        linarith
+      · have := hb.2.2.2.2
+        simp only [exBlock] at this
+        norm_num at this ⊢
+        linarith
+
+/-- **non-vacuity of `renderConcrete_polar_point_layouts` / `_stereo_bounds_layouts`**: on EVERY one of the ten layout tables
+    the plain polar block straight ahead at distance 1 satisfies all the hypotheses (the position pipeline returns (0, 1, 0),
+    the lock leaves it unchanged, distance 1 is in the point-only class, the empty zone list gives a mask) -/
+example (T : LayoutTable) (hT : T ∈ Earverif.Gen.C01.layouts) (fuel : Nat) (P : Conv.Params ℝ) :
+    positionBeforeLock (T.env fuel) P (exBlock false) = some (0, 1, 0) ∧
+    CartLock.lockedPosition (T.env fuel : LayoutEnv ℝ).normPos (toP3 ((0, 1, 0) : V3 ℝ))
+      (Lock.lockHandle false (T.env fuel : LayoutEnv ℝ).normPos (T.env fuel : LayoutEnv ℝ).prio [] (toP3 ((0, 1, 0) : V3 ℝ))
+        (exBlock false).lock) = some (toP3 ((0, 1, 0) : V3 ℝ)) ∧
+    InPointClass (ofP3 (toP3 ((0, 1, 0) : V3 ℝ))) ∧
+    ∃ zmask, Zone.getExcluded fuel (T.env fuel : LayoutEnv ℝ).spks (exBlock false).zones = some zmask := by
+  have hsf := List.all_eq_true.mp tables_screen_ok T hT
+  refine ⟨?_, ?_, ?_, ?_⟩
+  · rw [positionBeforeLock_plain (T.env fuel) P (exBlock false) (screenOk_of_table T fuel hsf) (exBlock_plain false)]
+    simp only [exBlock, coordTrans, Bool.false_eq_true, if_false]
+    rw [cart_front]
+  · simp [exBlock, Lock.lockHandle, CartLock.lockedPosition]
+  · exact inPointClass_of_far _ (by simp [ofP3, toP3, norm3])
+  · exact ⟨(T.env fuel : LayoutEnv ℝ).spks.map fun _ => false, by simp [exBlock, Zone.getExcluded, LayoutTable.env]⟩
+
+/-- the plain polar block straight up at distance 1 (block gain 1/2, object gain 3, diffuse 1/4) -/
+noncomputable def exBlockUp : CBlock ℝ :=
+  ⟨⟨false, (0, 90, 1), none, none, none, none, true, 1 / 2, 1 / 4, 3, false⟩, false, ⟨true, 1, (0, 0, 1), 58⟩, ⟨none, none⟩, [],
+    none⟩
+
+/-- **non-vacuity of `renderConcrete_polar_point_stereo_bounds_partial(_layouts)`**: on the regenerated 0+2+0 tables the block
+    `exBlockUp` satisfies ALL hypotheses (`renderConcretePolarPoint` returns a result through the stereo wrapper, `StereoEnvOk`
+    holds, the value ranges hold) and the power is in [(1 − 1e-10)/2, 1] · (3/2)² -/
+example (fuel : Nat) (P : Conv.Params ℝ) :
+    ∃ T ∈ Earverif.Gen.C01.layouts, ∃ L ∈ Earverif.Gen.C05.layouts, T.name = "0+2+0" ∧ L.name = "0+2+0" ∧
+      StereoEnvOk (T.env fuel : LayoutEnv ℝ) L ∧ ∃ r, renderConcretePolarPoint (T.env fuel) P L exBlockUp = some r ∧
+      (9 / 4 : ℝ) * ((1 - 1 / 10000000000) * (1 / 2)) ≤ power r ∧ power r ≤ 9 / 4 := by
+  have h := tables_up_ok
+  cases hT : Earverif.Gen.C01.layouts.find? (fun T => T.name == "0+2+0") with
+  | none => simp [hT] at h
+  | some T =>
+    simp only [hT, Option.any_some] at h
+    cases hL : Earverif.Gen.C05.layouts.find? (fun L => L.name == "0+2+0") with
+    | none => simp [hL] at h
+    | some L =>
+      simp only [hL, Option.any_some, Bool.and_eq_true] at h
+      have hTm := List.mem_of_find?_eq_some hT
+      have hE := stereoEnvOk_of_tables T L fuel h.1
+      obtain ⟨r, hr⟩ := renderConcretePolarPoint_up_total_stereo T hTm L h.1 h.2 fuel P exBlockUp ⟨rfl, rfl, rfl, rfl, rfl⟩
+        rfl rfl rfl
+      have hb := renderConcrete_polar_point_stereo_bounds_partial (T.env fuel) P L exBlockUp r hE hr
+        (by intro y hy; simp [exBlockUp] at hy) (by simp only [exBlockUp]; norm_num) (by simp only [exBlockUp]; norm_num)
+        (by simp only [exBlockUp]; norm_num)
+      refine ⟨T, hTm, L, List.mem_of_find?_eq_some hL, by simpa using List.find?_some hT, by simpa using List.find?_some hL,
+        hE, r, hr, ?_, ?_⟩
+      · have := hb.2.2.2.1
+        simp only [exBlockUp] at this
+        norm_num at this ⊢
+        linarith
+      · have := hb.2.2.2.2
+        simp only [exBlockUp] at this
+        norm_num at this ⊢
+        linarith
+
+/-- non-vacuity of `renderFull_power` / `renderFull_polar` with the contracts restricted to the visited positions: a panner
+    that answers with a unit vector at the visited position and with GARBAGE (the empty vector) everywhere else — in
+    particular at the origin — satisfies `hpan`, which the old `∀ pos` form could not be instantiated with -/
+example :
+    let o : Oracles ℝ := ⟨id, id, id, fun pos => if pos = (0, 1, 0) then [1, 0] else []⟩
+    let b : Block ℝ := ⟨false, (0, 0, 1), none, none, none, none, true, 1, 0, 1, false⟩
+    visitedPositions o b = [(0, 1, 0)] ∧
+    (∀ pos ∈ visitedPositions o b, (o.extentPan pos).length = 2 ∧ Nonneg (o.extentPan pos) ∧ 1 ≤ sumSq (o.extentPan pos) ∧
+      sumSq (o.extentPan pos) ≤ 1) ∧ o.extentPan (0, 0, 0) = [] ∧
+    ∃ r, renderFull 2 o (.polar (eye 2)) [false, false] b = some r := by
+  have hv : visitedPositions ⟨id, id, id, fun pos => if pos = ((0 : ℝ), (1 : ℝ), (0 : ℝ)) then [(1 : ℝ), 0] else []⟩
+      ⟨false, (0, 0, 1), none, none, none, none, true, 1, 0, 1, false⟩ = [(0, 1, 0)] := by
+    simp only [visitedPositions, applyOffset, coordTrans, Bool.false_eq_true, if_false, id, divergePositions]
+    rw [cart_front]
+  refine ⟨hv, ?_, by simp, by simp [renderFull, applyOffset]⟩
+  intro pos hpos
+  rw [hv] at hpos
+  simp only [List.mem_singleton] at hpos
+  subst hpos
+  simp [Nonneg]
+
+/-- non-vacuity of `polarHandle_contract` / `polarHandle_isPolarRow_ranged`: unit-power point and spread answers -/
+example : (0 : ℝ) ≤ 45 ∧ (45 : ℝ) ≤ 360 ∧ ([1, 0] : List ℝ).length = 2 ∧ sumSq ([1, 0] : List ℝ) = 1 ∧
+    (∀ w h : ℝ, 5 ≤ w → w ≤ 360 → 5 ≤ h → h ≤ 360 → ((fun _ _ => [3 / 5, 4 / 5]) w h : List ℝ).length = 2 ∧
+      sumSq ((fun _ _ => [3 / 5, 4 / 5]) w h : List ℝ) = 1) := by
+  refine ⟨by norm_num, by norm_num, rfl, by norm_num, fun _ _ _ _ _ _ => ⟨rfl, by norm_num⟩⟩
+
+/-- non-vacuity of `triplet_gain_pos` / `pspHandle_hasPos`: the standard basis is invertible and bounded, the diagonal
+    direction is longer than 1/2 and accepted -/
+example : PointSource.det3 (((1 : ℝ), 0, 0), (0, 1, 0), (0, 0, 1)) ≠ 0 ∧ MatBounded (((1 : ℝ), 0, 0), (0, 1, 0), (0, 0, 1)) ∧
+    (1 / 4 : ℝ) < 1 * 1 + 1 * 1 + 1 * 1 := by
+  refine ⟨by norm_num [PointSource.det3], ?_, by norm_num⟩
+  simp [MatBounded]
+
+/-- non-vacuity of `polarPoint_far`: at distance 1 the point-only regime is reached (`ammount_spread = 0`) -/
+example : polarExtents (1 : ℝ) (zero : ℝ) zero zero = [(0, 0)] ∧ ¬ (k (1 / 10000000000) : ℝ) < amountSpread 0 0 := by
+  constructor
+  · have hpd : polarDistances (1 : ℝ) (0 : ℝ) = [1] := by
+      simp only [polarDistances, zero_real]; rw [if_pos ((eqS_real _ _).mpr rfl)]
+    simp only [polarExtents, zero_real, hpd, List.map_cons, List.map_nil, extentMod_zero_one]
+  · rw [amountSpread_zero]; simp only [k_real]; norm_num
 
 end Earverif.GainCalc
